@@ -231,12 +231,18 @@ func VerifC19Interrupt(n, e, graphs, mode int) {
 // VerifC19Refuse: a dump interrupted by a failing cursor fetch is resumed with
 // (what=0) another batch size, (1) another shard size, (2) another graph list, (3) a source
 // whose counts changed, (4) a file in the directory the checkpoint does not account for,
-// (5) the checkpoint of another driver: the resume must fail.
+// (5) the checkpoint of another driver, (6) a completed graph that was empty and has gained a
+// node: the resume must fail.
 func VerifC19Refuse(n, e, what int) {
 	dir := verifWorkDir()
 	defer verifCleanupWorkDir(dir)
 	ctx := context.Background()
 	src, targets := verifFixedSource(n, e, 1)
+	if what == 6 {
+		// an empty graph is dumped (and recorded complete) before the one that is interrupted
+		src.graphData("empty")
+		targets = append([]GraphTarget{{Name: "empty"}}, targets...)
+	}
 	out := filepath.Join(dir, "dump")
 	options := DefaultDumpOptions(out)
 	options.Compression = CompressionNone
@@ -277,6 +283,13 @@ func VerifC19Refuse(n, e, what int) {
 		if verifOsMkdirAll(filepath.Dir(stray), 0o755) != nil || verifOsWriteFile(stray, []byte("{}\n"), 0o600) != nil {
 			return
 		}
+	case 6:
+		// the completed empty graph gains a node before the resume
+		if len(checkpoint.Manifest.Graphs) == 0 {
+			return
+		}
+		data := src.graphData("empty")
+		data.nodes = append(data.nodes, graph.NewNode(998, graph.NewProperties(), graph.StringKind("User")))
 	default:
 		driver = "other"
 	}
